@@ -36,6 +36,8 @@ pub enum StallPoint {
     TlsHandshake,
     /// https through a proxy: the proxy reads the CONNECT request and stalls inside its reply head
     ConnectReply,
+    /// https through a proxy: the proxy refuses the tunnel (407 with a body of 100 octets) and stalls after 12 of them
+    ConnectRefusalBody,
 }
 
 #[derive(Debug, Clone, Serialize, Deserialize, PartialEq, Eq, Hash)]
@@ -132,6 +134,12 @@ fn split_response(point: StallPoint) -> (Vec<u8>, Vec<u8>) {
         StallPoint::Connect | StallPoint::ConnectNamed | StallPoint::TlsHandshake | StallPoint::Upload | StallPoint::BeforeReply => (length.clone(), 0),
         StallPoint::GzipFrameTail => (gz_chunked.clone(), gz_chunked.len() - 5),
         StallPoint::ConnectReply => (b"HTTP/1.1 200 Connection established\r\nX-Proxy: p\r\n\r\n".to_vec(), 17),
+        StallPoint::ConnectRefusalBody => {
+            let mut w = b"HTTP/1.1 407 Proxy Authentication Required\r\nContent-Length: 100\r\n\r\n".to_vec();
+            let k = w.len() + 12;
+            w.extend_from_slice(&[b'r'; 100]);
+            (w, k)
+        }
         StallPoint::InStatusLine => (length.clone(), 10),
         StallPoint::InHeader => (length.clone(), find(&length, b"X-Pad") + 9),
         StallPoint::AfterHead => (length.clone(), find(&length, b"\r\n\r\n") + 4),
@@ -591,7 +599,7 @@ fn run_once(case: &Case) -> Result<Observed, String> {
     let scripts = if case.prepared == 2 && matches!(case.scenario, Scenario::Complete { .. }) && scripts.len() == 1 { vec![scripts[0].clone(), scripts[0].clone()] } else { scripts };
     let mut hole = if connect_stall { Some(crate::peers::black_hole(false, 1).map_err(|e| format!("black hole: {e}"))?) } else { None };
     let tls_stall = matches!(case.scenario, Scenario::Stall { point: StallPoint::TlsHandshake, .. });
-    let connect_reply_stall = matches!(case.scenario, Scenario::Stall { point: StallPoint::ConnectReply, .. });
+    let connect_reply_stall = matches!(case.scenario, Scenario::Stall { point: StallPoint::ConnectReply | StallPoint::ConnectRefusalBody, .. });
     let tunnel = case.tunnel && scripts.len() == 1 && !upload && !connect_stall && !tls_stall && !connect_reply_stall && case.prepared != 2;
     let mut server = if tunnel { tunnel_script_server("good", scripts.into_iter().next().unwrap()) } else { script_server(scripts) }.map_err(|e| format!("server: {e}"))?;
     install_sched(&case.sched);
@@ -745,6 +753,8 @@ labelled points of the watchdog / reader (verif-hooks H3). Oracle S1-S4. non-tri
         v.push(Case { scenario: Scenario::Stall { point: StallPoint::ConnectReply, drip_ms: 0 }, t_ms: 0, r_ms: 150, reads: vec![4096], sched: vec![], tunnel: false, api: 0, prepared: 0 });
         v.push(Case { scenario: Scenario::Stall { point: StallPoint::ConnectReply, drip_ms: 0 }, t_ms: 2500, r_ms: 150, reads: vec![4096], sched: vec![], tunnel: false, api: 0, prepared: 0 });
         v.push(Case { scenario: Scenario::Stall { point: StallPoint::ConnectReply, drip_ms: 0 }, t_ms: 300, r_ms: 5000, reads: vec![4096], sched: vec![], tunnel: false, api: 0, prepared: 0 });
+        v.push(Case { scenario: Scenario::Stall { point: StallPoint::ConnectRefusalBody, drip_ms: 0 }, t_ms: 0, r_ms: 150, reads: vec![4096], sched: vec![], tunnel: false, api: 0, prepared: 0 });
+        v.push(Case { scenario: Scenario::Stall { point: StallPoint::ConnectRefusalBody, drip_ms: 0 }, t_ms: 300, r_ms: 5000, reads: vec![4096], sched: vec![], tunnel: false, api: 0, prepared: 0 });
         // a read timeout of zero: no stall at all is tolerated (the call fails, it does not wait)
         for p in [StallPoint::BeforeReply, StallPoint::InLengthBody, StallPoint::InChunkData] {
             v.push(Case { scenario: Scenario::Stall { point: p, drip_ms: 0 }, t_ms: 0, r_ms: 0, reads: vec![4096], sched: vec![], tunnel: false, api: 0, prepared: 0 });
@@ -936,6 +946,9 @@ labelled points of the watchdog / reader (verif-hooks H3). Oracle S1-S4. non-tri
                         // the server is still holding the connection open: a clean end can only come from the deadline shutdown
                         return Outcome::fail("C13:deadline-reported-as-end-of-body", describe);
                     }
+                    if *point == StallPoint::ConnectRefusalBody && obs.err_text.contains("ConnectError") {
+                        return Outcome::fail("C13:cut-refusal-body-reported-as-complete", format!("the proxy's refusal body was cut by a time-out after 12 of 100 octets, yet the error presents it as the proxy's answer; {describe}"));
+                    }
                     if obs.reread_clean_eof {
                         return Outcome::fail("C13:cut-body-reported-complete-on-reread", format!("after the timeout error a further read returned Ok(0); {describe}"));
                     }
@@ -953,7 +966,7 @@ labelled points of the watchdog / reader (verif-hooks H3). Oracle S1-S4. non-tri
                             }
                         }
                     }
-                    ctx.nontrivial = !matches!(point, StallPoint::Connect | StallPoint::ConnectNamed | StallPoint::TlsHandshake | StallPoint::ConnectReply | StallPoint::Upload | StallPoint::BeforeReply | StallPoint::InStatusLine | StallPoint::InHeader) || *drip_ms > 0;
+                    ctx.nontrivial = !matches!(point, StallPoint::Connect | StallPoint::ConnectNamed | StallPoint::TlsHandshake | StallPoint::ConnectReply | StallPoint::ConnectRefusalBody | StallPoint::Upload | StallPoint::BeforeReply | StallPoint::InStatusLine | StallPoint::InHeader) || *drip_ms > 0;
                     ctx.label(match point {
                         StallPoint::Connect => "stall:connect",
                         StallPoint::ConnectNamed => "stall:connect(two raced addresses)",
@@ -970,6 +983,7 @@ labelled points of the watchdog / reader (verif-hooks H3). Oracle S1-S4. non-tri
                         StallPoint::GzipFrameTail => "stall:after-the-gzip-stream-before-the-last-chunk",
                         StallPoint::TlsHandshake => "stall:tls-handshake",
                         StallPoint::ConnectReply => "stall:inside-the-proxy's-connect-reply",
+                        StallPoint::ConnectRefusalBody => "stall:inside-the-body-of-the-proxy's-refusal",
                     });
                     ctx.label_if(*drip_ms > 0, "drip");
                     ctx.label_if(t == 0, "read-timeout-only");
